@@ -132,7 +132,9 @@ inductive Prog : Type → Type 1 where
   /-- swap `self.lex` for a `BoundedTokenStream(toks)`, run `body`, restore; `CxxParseError`
       inside `body` is caught.  The continuation gets the result (if any) and `has_tokens()`. -/
   | bounded {α γ : Type} (toks : List CTok) (body : Prog γ) (k : Option γ × Bool → Prog α) : Prog α
-  | opt {α : Type} (k : Options → Prog α) : Prog α
+  /-- read `self.options.convert_void_to_zero_params` (the only option the parser consults;
+      `verbose` is handled by the interpreter: debug output and the error wrapper) -/
+  | opt {α : Type} (k : Bool → Prog α) : Prog α
   | debug {α : Type} (msg : String) (k : Prog α) : Prog α
   /-- ghost: the main loop's `tok` variable (used by `parse()`'s error wrapper) -/
   | note {α : Type} (t : Option CTok) (k : Prog α) : Prog α
